@@ -54,7 +54,7 @@ type wrapSM struct {
 	pr    []int32
 	calls int
 	idle  int
-	seen  map[string]struct{}
+	seen  map[string]int
 }
 
 func (w *wrapSM) PushRune(r rune) int {
@@ -64,15 +64,17 @@ func (w *wrapSM) PushRune(r rune) int {
 		before = w.tap()
 		k := fmt.Sprint(r, before.State, before.Mode, before.Stack)
 		if w.seen == nil {
-			w.seen = map[string]struct{}{}
+			w.seen = map[string]int{}
 		}
-		if _, dup := w.seen[k]; dup {
+		w.seen[k]++
+		if w.seen[k] > 20 {
 			// The driver and the state machine are deterministic: the same
 			// rune offered in the same configuration with no input consumed
-			// in between will repeat forever.
+			// in between repeats forever. (20 repeats rather than 2 so that a
+			// machine with a little state the tap does not show is not
+			// accused wrongly.)
 			panic(stop{"lex-config-repeat"})
 		}
-		w.seen[k] = struct{}{}
 	}
 	res := w.inner.PushRune(r)
 	switch {
